@@ -623,7 +623,25 @@ func c03Gen(r *Rand, tier string) []interface{} {
 		if i := strings.Index(t, "?"); i >= 0 {
 			t, q = t[:i], t[i:]
 		}
-		switch r.Intn(12) {
+		switch r.Intn(19) {
+		case 12:
+			if i := strings.LastIndex(t, "/"); i > 0 {
+				t = t[:i] + "%2F" + t[i+1:]
+			}
+		case 13:
+			t = "/%2E%2E" + t
+		case 14:
+			t = strings.Replace(t, "/secret", "/secret/../secret", 1)
+		case 15:
+			if i := strings.LastIndex(t, "/"); i > 0 && i < len(t)-1 {
+				t = t[:i] + "/./" + t[i+1:]
+			}
+		case 16:
+			t = strings.Replace(t, "int", "%69nt", 1)
+		case 17:
+			t = strings.Replace(t, "/int", "/Int", 1)
+		case 18:
+			t = "/pub/%2e%2e/." + t
 		case 0:
 			t = "/." + t
 		case 1:
